@@ -575,6 +575,12 @@ func filestat(h FileLister, r *Request, pkt requestPacket) responsePacket {
 	n, err := lister.ListAt(finfo, 0)
 	finfo = finfo[:n] // avoid need for nil tests below
 
+	// this lister is not kept in the request's state, so it is closed here
+	// (ListerAt implementations that are io.Closers are documented to be closed by the server).
+	if c, ok := lister.(io.Closer); ok {
+		c.Close()
+	}
+
 	switch r.Method {
 	case "Stat", "Lstat":
 		if err != nil && err != io.EOF {
